@@ -1,5 +1,7 @@
 import OdcGeo.Model.C04
 import OdcGeo.Model.C04Roi
+import OdcGeo.Model.C04Args
+import OdcGeo.Model.C04Dtype
 import OdcGeo.Drv.C17
 namespace OdcGeo.C04.Drv
 open OdcGeo OdcGeo.IO OdcGeo.C17 OdcGeo.C04 OdcGeo.NpArray
@@ -49,6 +51,182 @@ def parseRoi? (s : String) : Option Roi :=
     | _ => none
 
 def fmtNat (n : Nat) : String := toString n
+
+/-! ### argument forms (`Model/C04Args.lean`) -/
+
+def fmtResA {α} (f : α → String) : ResA α → String
+  | .ok a => f a
+  | .error e => e.toStr
+
+def fmtP : PIdx → String
+  | .idx i => s!"i:{i}"
+  | .slc a b => s!"s:{fmtOpt fmtInt a}:{fmtOpt fmtInt b}"
+
+/-- `iy;ix;d0;d1;…` : key and `b.shape` of one block -/
+def parseBlock? (s : String) : Option BlockDesc := do
+  let xs ← (s.splitOn ";").mapM parseInt?
+  match xs with
+  | iy :: ix :: shape => pure ⟨(iy, ix), shape⟩
+  | _ => none
+
+/-- `t=[pidx,…]` tuple, `I=x;y` Index2d, `X=x;y` XY, `O` anything else -/
+def parseIdxArg? (s : String) : Option IdxArg :=
+  if s = "O" then some .other
+  else match s.splitOn "=" with
+    | ["t", l] => (parseList? parsePIdx? l).map IdxArg.tuple
+    | ["I", p] => (parsePair? p).map fun (x, y) => IdxArg.index2d x y
+    | ["X", p] => (parsePair? p).map fun (x, y) => IdxArg.xy x y
+    | _ => none
+
+/-- `S=x;y` Shape2d, `X=x;y` XY, `q=[a,b,…]` tuple / list of ints, `O` anything else -/
+def parseShapeArg? (s : String) : Option ShapeArg :=
+  if s = "O" then some .other
+  else match s.splitOn "=" with
+    | ["S", p] => (parsePair? p).map fun (x, y) => ShapeArg.shape2d x y
+    | ["X", p] => (parsePair? p).map fun (x, y) => ShapeArg.xy x y
+    | ["q", l] => (parseInts? l).map ShapeArg.seq
+    | _ => none
+
+/-- a shape spelling, or `c=[..]|[..]|…` (sequence of int sequences, at least one) -/
+def parseHowArg? (s : String) : Option HowArg :=
+  match s.splitOn "=" with
+  | ["c", l] => do
+    let cs ← (l.splitOn "|").mapM parseInts?
+    match cs with
+    | c0 :: rest => pure (.chunks c0 rest)
+    | [] => none
+  | _ => (parseShapeArg? s).map HowArg.shape
+
+/-- what identifies a constructed tiling object: `Tiles` base / tile size, resp. the `int32`
+offsets array of `VariableSizedTiles` -/
+def fmtTilingTok : Tiling → String
+  | .reg N n => s!"r:{N}:{n}"
+  | .var ch => s!"v:{fmtInts (offsets ch)}"
+
+def fmtPlaneEl : PlaneEl → String
+  | .ax i => toString i
+  | .win p => fmtP p
+
+def fmtWinAxis (w : WinAxis) : String := s!"{w.1};{fmtOpt fmtInt w.2}"
+
+/-- dtype token: kind letter + bits, e.g. `u8`, `f32`, `b8`, `c128` -/
+def parseDT? (s : String) : Option DT :=
+  match s.toList with
+  | k :: rest => do
+    let bits ← (String.ofList rest).toNat?
+    let kind ← match k with
+      | 'b' => some Kind.b | 'u' => some Kind.u | 'i' => some Kind.i | 'f' => some Kind.f | 'c' => some Kind.c
+      | _ => none
+    pure ⟨kind, bits⟩
+  | [] => none
+
+def fmtDT (d : DT) : String :=
+  (match d.kind with | .b => "b" | .u => "u" | .i => "i" | .f => "f" | .c => "c") ++ toString d.bits
+
+/-- fill token: `N`, `B=T|F`, `I=<int>`, `F=<rat>`, `F=x` (nan / inf) -/
+def parseFill? (s : String) : Option FillArg :=
+  if s = "N" then some .none
+  else match s.splitOn "=" with
+    | ["B", v] => (parseBool? v).map FillArg.bool
+    | ["I", v] => (parseInt? v).map FillArg.int
+    | ["F", "x"] => some (.float .nonfinite)
+    | ["F", v] => (parseRat? v).map fun x => FillArg.float (.fin x)
+    | _ => none
+
+def fmtFillV : FillV → String
+  | .nan => "nan" | .zero => "0" | .given => "given"
+
+def runDtype (args : List String) : Option String :=
+  match args with
+  | ["dt", "rt", l] => do
+    let l ← parseList? parseDT? l
+    pure (fmtDT (resultTypeL l))
+  | ["dt", "cast", a, b] => do
+    let a ← parseDT? a; let b ← parseDT? b
+    pure (fmtBool (safeCast a b))
+  | ["dt", "min", v] => do
+    let v ← parseFill? v
+    pure (fmtOpt fmtDT (fillMinType v))
+  | ["dt", "init", l] => do
+    let l ← parseList? parseDT? l
+    pure (fmtDT (assemblerDtype l))
+  | ["dt", "extract", l, dtype, fill] => do
+    -- blocks' dtypes, the `dtype=` argument, the fill → allocated dtype and the fill written
+    let l ← parseList? parseDT? l; let dtype ← parseOpt? parseDT? dtype; let fill ← parseFill? fill
+    let given := match fill with | .none => false | _ => true
+    match fill, fillMinType fill with
+    | .int _, none => pure "object"     -- a Python int beyond 64 bits: outside the model
+    | _, fm =>
+      let _ := fm
+      match extractAlloc l dtype fill with
+      | .error _ => pure "ERR:OverflowError"
+      | .ok d => pure s!"{fmtDT d} {fmtFillV (effFill d given)}"
+  | _ => none
+
+def runArgs (args : List String) : Option String :=
+  match args with
+  | ["vshape", chy, chx, axis, blocks] => do
+    let chy ← parseInts? chy; let chx ← parseInts? chx; let axis ← parseNat? axis
+    let blocks ← parseList? parseBlock? blocks
+    pure (fmtRes fmtInts (verifyShape chy chx axis blocks))
+  | ["verify", chy, chx, axis, blocks] => do
+    let chy ← parseInts? chy; let chx ← parseInts? chx; let axis ← parseNat? axis
+    let blocks ← parseList? parseBlock? blocks
+    pure (fmtRes (fun a => s!"{fmtInts a.shape} {fmtBool a.defaultDtype}") (assemblerInit chy chx axis blocks))
+  | ["mkidx", f, a, b] => do
+    let a ← parseInt? a; let b ← parseInt? b
+    let i ← if f = "iyx" then some (iyx2 a b) else if f = "ixy" then some (ixy2 a b) else none
+    pure s!"{fmtP i.x} {fmtP i.y}"
+  | ["idx", f, a] => do
+    let a ← parseIdxArg? a
+    let r ← if f = "iyx" then some (iyx a) else if f = "ixy" then some (ixy a) else none
+    pure (fmtRes (fun i => s!"{fmtP i.x} {fmtP i.y}") r)
+  | ["a", "get", ty, tx, a] => do
+    let ty ← parseTiling? ty; let tx ← parseTiling? tx; let a ← parseIdxArg? a
+    pure (fmtRes (fun (a, b) => s!"{fmtNS a} {fmtNS b}") (getItemArg ⟨ty, tx⟩ a))
+  | ["a", "shape", ty, tx, a] => do
+    let ty ← parseTiling? ty; let tx ← parseTiling? tx; let a ← parseIdxArg? a
+    pure (fmtResA (fun (a, b) => s!"{a} {b}") (tileShapeArg ⟨ty, tx⟩ a))
+  | ["a", "locate", ty, tx, a] => do
+    let ty ← parseTiling? ty; let tx ← parseTiling? tx; let a ← parseIdxArg? a
+    pure (fmtResA (fun (a, b) => s!"{a} {b}") (locateArg ⟨ty, tx⟩ a))
+  | ["ga", "get", ny, nx, A, ty, tx, a] => do
+    let ny ← parseInt? ny; let nx ← parseInt? nx; let A ← parseAff? A
+    let ty ← parseTiling? ty; let tx ← parseTiling? tx; let a ← parseIdxArg? a
+    pure (fmtRes fmtGBox (GeoboxTiles.getItemArg ⟨⟨ny, nx, A⟩, ⟨ty, tx⟩⟩ a))
+  | ["ga", "pix", ny, nx, A, ty, tx, a] => do
+    let ny ← parseInt? ny; let nx ← parseInt? nx; let A ← parseAff? A
+    let ty ← parseTiling? ty; let tx ← parseTiling? tx; let a ← parseIdxArg? a
+    pure (fmtRes (fun (l, b, r, t) => s!"{l} {b} {r} {t}") (GeoboxTiles.pixBBox ⟨⟨ny, nx, A⟩, ⟨ty, tx⟩⟩ a))
+  | ["ga", "cshape", ny, nx, A, ty, tx, a] => do
+    let ny ← parseInt? ny; let nx ← parseInt? nx; let A ← parseAff? A
+    let ty ← parseTiling? ty; let tx ← parseTiling? tx; let a ← parseIdxArg? a
+    pure (fmtResA (fun (a, b) => s!"{a} {b}") (GeoboxTiles.chunkShape ⟨⟨ny, nx, A⟩, ⟨ty, tx⟩⟩ a))
+  | ["shape_", s] => do
+    let s ← parseShapeArg? s
+    pure (fmtRes (fun (ny, nx) => s!"{ny} {nx}") (shapeOf s))
+  | ["roitiles", s, how] => do
+    let s ← parseShapeArg? s; let how ← parseHowArg? how
+    pure (fmtRes (fun t => s!"{fmtTilingTok t.y} {fmtTilingTok t.x} | {fmtTiling2 t}") (roiTiles s how))
+  | ["gbtinit", ny, nx, A, how, ty, tx] => do
+    let ny ← parseInt? ny; let nx ← parseInt? nx; let A ← parseAff? A
+    let how ← parseOpt? parseHowArg? how
+    let tiles ← if ty = "N" ∧ tx = "N" then some none
+      else do let ty ← parseTiling? ty; let tx ← parseTiling? tx; pure (some (⟨ty, tx⟩ : Tiling2))
+    pure (fmtRes (fun g => s!"{fmtGBox g.base} | {fmtTilingTok g.tiles.y} {fmtTilingTok g.tiles.x} | {fmtTiling2 g.tiles}")
+      (gbtInit ⟨ny, nx, A⟩ how tiles))
+  | ["planesw", lead, trail, yx] => do
+    let lead ← parseList? parseNat? lead; let trail ← parseList? parseNat? trail
+    let yx ← parseOpt? (parseList? parsePIdx?) yx
+    pure (fmtRes (fmtList fun p => "(" ++ ";".intercalate (p.map fmtPlaneEl) ++ ")") (planesYXWith lead trail yx))
+  | ["win", a] => do
+    let a ← if a = "N" then some WinArg.none else if a = "O" then some WinArg.other
+      else (parseList? parsePIdx? a).map WinArg.seq
+    pure (fmtResA (fmtOpt fun (r, c) => s!"{fmtWinAxis r} {fmtWinAxis c}") (windowFromSlice a))
+  | ["roishape", roi] => do
+    let roi ← parseRoi? roi
+    pure (fmtResA fmtInts (roiShape roi))
+  | _ => runDtype args
 
 def run (args : List String) : Option String :=
   match args with
@@ -188,6 +366,6 @@ def run (args : List String) : Option String :=
     let lead ← parseList? parseNat? lead; let trail ← parseList? parseNat? trail
     pure (fmtList (fun p => "(" ++ ";".intercalate (p.map (fmtOpt toString)) ++ ")")
       (planesYX lead trail))
-  | _ => none
+  | _ => runArgs args
 
 end OdcGeo.C04.Drv
